@@ -30,6 +30,8 @@ def gen(tier, seed):
               ((3, 1, 1), (0, 1, 0), [(-1, 1), (-1, 1), (-1, 1)] if q else [(-1, 2)] * 3),
               ((2, 2, 1), (0, 1, 0, 1), [(-1, 0), (-1, 1), (-1, 1), (-1, 0)] if q else [(-1, 1)] * 4)]
     spaces += [((1, 1, 3), None, [(-1, 2)] * 3)]
+    # 3-D grids whose cross-section is not square (w != h): the z stride is w*h, not w*w or h*h
+    spaces += [((1, 2, 2), None, [(-1, 2)] * 4), ((2, 1, 2), None, [(-1, 1)] * 4)]
     if tier != "quick":
         spaces += [((2, 2, 2), None, [(-1, 1)] * 8)]
     for k, (shape, envs, ranges) in enumerate(spaces):
